@@ -363,8 +363,8 @@ fn run(cx: &mut Ctx, prop: Prop) {
         (crate::ctx::Tier::Tiny, _) => vec![0, 1, 17],
         (crate::ctx::Tier::Quick, Prop::C02) => vec![0, 1, 15, 16, 17, 63, 64, 65],
         (crate::ctx::Tier::Quick, Prop::C17) => vec![1, 15, 16, 17, 64, 65],
-        (crate::ctx::Tier::Thorough, Prop::C02) => (0..=96).chain([255, 256, 257, 1024]).collect(),
-        (crate::ctx::Tier::Thorough, Prop::C17) => (1..=96).chain([256, 1024]).collect(),
+        (crate::ctx::Tier::Thorough, Prop::C02) => (0..=200).chain([255, 256, 257, 1023, 1024, 1025, 4096]).collect(),
+        (crate::ctx::Tier::Thorough, Prop::C17) => (1..=200).chain([256, 1024, 4096]).collect(),
     };
     let quick_set: [usize; 8] = [0, 1, 15, 16, 17, 63, 64, 65];
     let forms = open_forms_for(cx);
@@ -386,7 +386,8 @@ fn run(cx: &mut Ctx, prop: Prop) {
             let (rpk, rsk) = na::box_seed_keypair(&rng.arr());
             // the X25519-per-call forms are exercised on the quick length set only
             let cheap_only = false;
-            if (fam == Family::Box || fam == Family::Seal) && !quick_set.contains(&len) {
+            // the X25519-per-call families: quick length set in the quick tier, every length up to 80 in the thorough tier
+            if (fam == Family::Box || fam == Family::Seal) && !(quick_set.contains(&len) || cx.tier == crate::ctx::Tier::Thorough && len <= 80) {
                 continue;
             }
             let w0 = match fam {
@@ -412,7 +413,7 @@ fn run(cx: &mut Ctx, prop: Prop) {
                 if !cx.mine(idx) {
                     continue;
                 }
-                if pos == 2 && !(quick_set.contains(&len)) {
+                if pos == 2 && !(quick_set.contains(&len) || cx.tier == crate::ctx::Tier::Thorough && len <= 100) {
                     continue;
                 }
                 let mut rng = cx.rng.fork(idx);
